@@ -1,4 +1,5 @@
 import TonicModel.Lemmas.FramingWire
+import TonicModel.Lemmas.FramingDecLimit
 /-
 C07 — Hostile or truncated input ends a stream with one error, never a hang or panic.
 All theorems quantify over *arbitrary* event lists: any bytes in any chunking, `Pending`s,
@@ -62,11 +63,93 @@ theorem C07_nothing_after_bad_frame (cd : Codec α) (cfg : DecCfg) (n : Nat) (ev
   rw [h] at this
   exact this.length_le
 
+/-! ### What a malformed or truncated body yields (content, not just totality)
+
+For a body that delivers its bytes — any bytes, in chunks cut anywhere, `Pending`s anywhere — and
+then simply ends (no trailers, no body error), the stream's results are *exactly* determined by
+the reference batch decoder's reading of those bytes. -/
+
+/-- **A plain body is drained to exactly the reference decoder's reading.**  If the reference
+decoder reads the delivered bytes as messages `ms` and then stops as `stop`, the stream yields
+exactly `ms`, in order, then: the error of the refused frame if `stop` is a refusal; `Unexpected
+EOF` (INTERNAL) if the input ends inside a frame of which the receiver holds at least one byte;
+otherwise the end of the stream (or, for a response, the error `infer_grpc_status` derives from
+the HTTP status); then `None` for ever.  (`hk`: the stream is a gRPC message stream — a request, or a response with
+HTTP status 200; the body of any other response is dropped unread, `C04_http_table_any_body`.) -/
+theorem C07_plain_body_exact (cd : Codec α) (cfg : DecCfg) (hk : cfg.skipsBody = false) (evs : List BodyEv) (hplain : PlainEvs evs = true)
+    (ms : List α) (stop : Stop) (h : batch (recvOf cd cfg) (dataOf evs) = (ms, stop))
+    (n : Nat) (hn : evs.length + ms.length < n) :
+    ∃ k, nonPending (Dec.run cd cfg n Dec.init evs) = ms.map .msg ++
+      plainEnd (plainTail cd cfg none stop (held (recvOf cd cfg) (dataOf evs))) k := by
+  have := run_plain cd cfg hk n Dec.init evs ms stop _ (by simp [PhaseOk, Dec.init]) hplain
+    (by simpa [specFrom, Dec.init] using h) rfl hn
+  simpa [heldFrom, Dec.init] using this
+
+/-- **A malformed frame yields an error, not a clean end — for every chunking.**  If the delivered
+bytes contain, after valid frames carrying `ms`, a frame the reference decoder refuses — flag
+other than 0/1, flag 1 without a negotiated encoding, declared length over the limit, payload
+the decompressor or the message decoder rejects — then the stream yields exactly `ms`, then that
+refusal's error (INTERNAL; OUT_OF_RANGE for the length; the decoder's own code for an undecodable
+payload), then `None` for ever. -/
+theorem C07_malformed_frame_yields_error (cd : Codec α) (cfg : DecCfg) (hsk : cfg.skipsBody = false) (evs : List BodyEv)
+    (hplain : PlainEvs evs = true) (ms : List α) (b : Bad)
+    (h : batch (recvOf cd cfg) (dataOf evs) = (ms, .bad b)) (n : Nat) (hn : evs.length + ms.length < n) :
+    ∃ k, nonPending (Dec.run cd cfg n Dec.init evs)
+      = ms.map .msg ++ .err (stOfBad cd b) :: List.replicate k .none := by
+  obtain ⟨k, hk⟩ := C07_plain_body_exact cd cfg hsk evs hplain ms (.bad b) h n hn
+  exact ⟨k, by simpa [plainTail, plainEnd] using hk⟩
+
+/-- the codes of the refusals -/
+theorem C07_refusal_codes (cd : Codec α) :
+    stOfBad cd .flag = ⟨13, .badFlag⟩ ∧ stOfBad cd .noEncoding = ⟨13, .noEncoding⟩ ∧
+    stOfBad cd .tooLarge = ⟨11, .tooLargeDec⟩ ∧ stOfBad cd .decompress = ⟨13, .decompress⟩ ∧
+    stOfBad cd .codec = ⟨cd.deErr, .codec⟩ := ⟨rfl, rfl, rfl, rfl, rfl⟩
+
+/-- **A body truncated inside a frame yields `Unexpected EOF`, not a clean end — for every
+chunking** — whenever the receiver holds at least one byte of the unfinished frame (part of a
+5-byte prefix, or part of a payload).  (When it holds none — the body ends right after a complete
+prefix — tonic ends the stream cleanly: `C07_plain_body_exact`, DESIGN §9.2.) -/
+theorem C07_truncated_frame_yields_error (cd : Codec α) (cfg : DecCfg) (hsk : cfg.skipsBody = false) (evs : List BodyEv)
+    (hplain : PlainEvs evs = true) (ms : List α)
+    (h : batch (recvOf cd cfg) (dataOf evs) = (ms, .incomplete))
+    (hheld : held (recvOf cd cfg) (dataOf evs) ≠ [])
+    (n : Nat) (hn : evs.length + ms.length < n) :
+    ∃ k, nonPending (Dec.run cd cfg n Dec.init evs)
+      = ms.map .msg ++ .err ⟨13, .eof⟩ :: List.replicate k .none := by
+  obtain ⟨k, hk⟩ := C07_plain_body_exact cd cfg hsk evs hplain ms .incomplete h n hn
+  exact ⟨k, by simpa [plainTail, plainEnd, hheld] using hk⟩
+
 /- Non-vacuity: the DESIGN §5.5 witness — a bad flag followed by bytes that look like frames. -/
 def idCodec : Codec Bytes := { ser := id, de := some, deErr := 13, cz := fun _ b => b, dz := fun _ b => some b }
 
 example : Dec.run idCodec { enc := none, maxSize := none, dir := .request } 4 Dec.init
       [.data [7, 0, 0, 0, 0, 1, 9, 0, 0, 0, 0, 2, 9, 9]]
     = [.err ⟨13, .badFlag⟩, .none, .none, .none] := by decide
+
+/- Non-vacuity of the hypotheses of `C07_malformed_frame_yields_error` (an undecodable payload
+after a valid frame, cut inside the second prefix, with a `Pending`) and of
+`C07_truncated_frame_yields_error` (two of five payload bytes delivered). -/
+def ffCodec : Codec Bytes :=
+  { ser := id, de := fun b => if b.head? = some 255 then none else some b, deErr := 13,
+    cz := fun _ b => b, dz := fun _ b => some b }
+
+example :
+    let cfg : DecCfg := { enc := none, maxSize := none, dir := .request }
+    let evs : List BodyEv := [.data [0, 0, 0, 0, 1, 9, 0, 0], .pending, .data [0, 0, 2, 255, 1, 0, 0, 0, 0, 0]]
+    PlainEvs evs = true ∧ batch (recvOf ffCodec cfg) (dataOf evs) = ([[9]], .bad .codec) := by
+  simp [PlainEvs, dataOf, batch_cons5, batch_nil, header, recvOf, batchBody, Spec.Framing.payload, ffCodec, be32,
+    DecCfg.limit, defaultMaxRecv]
+
+example :
+    let cfg : DecCfg := { enc := none, maxSize := none, dir := .request }
+    let evs : List BodyEv := [.data [0, 0, 0, 0, 5, 1], .data [2]]
+    PlainEvs evs = true ∧ batch (recvOf ffCodec cfg) (dataOf evs) = ([], .incomplete) ∧
+      held (recvOf ffCodec cfg) (dataOf evs) = [1, 2] := by
+  simp [PlainEvs, dataOf, batch_cons5, held_cons5, header, recvOf, batchBody, heldBody, Spec.Framing.payload,
+    ffCodec, be32, DecCfg.limit, defaultMaxRecv]
+
+/- the scope hypothesis `skipsBody = false` holds for every request and every 200 response -/
+example : ({ enc := none, maxSize := none, dir := .request } : DecCfg).skipsBody = false := by decide
+example : ({ enc := none, maxSize := none, dir := .response 200 } : DecCfg).skipsBody = false := by decide
 
 end C07
